@@ -16,6 +16,8 @@ COMMON = dict(
     pre_subst=[(r'\bbackoff backoff;', '', 'drop_backoff_decl'),
                (r'\bbackoff\(\);', 'XV_BACKOFF();', 'backoff_call'),
                (r'\bguard_ptr (\w+);', r'guard_ptr \1 = 0;', 'guard_default_ctor'),
+               (r'\bguard_ptr\s*\{\s*\}', '((guard_ptr)0)', 'guard_empty_temp'), (r'\bguard_ptr\s*\(\s*\)', '((guard_ptr)0)', 'guard_empty_temp'),
+               (r'\bguard_ptr\s*\((\w+)\)', r'G_from_raw(\1)', 'guard_from_raw'),      # a guard built from a plain pointer: protects nothing by itself (contract stub in harness.c)
                (r'\bmarked_ptr (\w+)\((\w+)\.get\(\)\);', r'marked_ptr \1 = \2.get();', 'marked_ptr_ctor'),
                (r'\bmarked_ptr (\w+)\{\};', r'marked_ptr \1 = 0;', 'marked_ptr_ctor'),
                (r'\bnode\* (\w+) = new node\(std::move\((\w+)\)\);', r'marked_ptr \1 = XV_NEW_NODE(\2);', 'new_node'),
